@@ -14,6 +14,7 @@ Functions:
 from __future__ import annotations
 
 import multiprocessing
+import os
 import pickle
 import sys
 from dataclasses import dataclass
@@ -40,8 +41,13 @@ def _pickle_load(file: Path) -> Any:
 
 
 def _pickle_save(file: Path, data: Any) -> None:
-    with file.open("wb") as fp:
+    # Write to a temporary name first and move the finished file into place, so an
+    # interrupted run never leaves a truncated result behind that a later run
+    # would try to load
+    tmp = file.with_name(f"{file.name}.{os.getpid()}.tmp")
+    with tmp.open("wb") as fp:
         pickle.dump(data, fp)
+    tmp.replace(file)
 
 
 @dataclass
